@@ -681,7 +681,11 @@ func (res *Resolver) ResolveGlob(sourceDir string, importPathPattern []helpers.G
 		}
 	}
 	sb.WriteByte('$')
-	re := regexp.MustCompile(sb.String())
+	re, err := regexp.Compile(sb.String())
+	if err != nil {
+		// This only fails for text that isn't valid UTF-8, which no path can match
+		return nil, nil
+	}
 
 	// Initialize "results" to a non-nil value to indicate that the glob is valid
 	results := make(map[string]ResolveResult)
